@@ -163,3 +163,126 @@ package iterator
 //@   ensures old(iter.n - iter.pos) != 1 ==> !result1 && result0 == zero(result0)
 //@   ensures old(iter.n - iter.pos) == 0 ==> iter.pulls == old(iter.pulls) + 1
 //@   ensures old(iter.n - iter.pos) >= 1 ==> iter.pulls == old(iter.pulls) + 2
+
+// ---- WithPeek ----
+
+//@ ghost Peekable.seq seq[T]
+//@ ghost Peekable.n int
+//@ ghost Peekable.pos int
+
+//@ pred pkInv(p) = p != nil && 0 <= p.pos && p.pos <= p.n
+
+//@ ext iterator.Peekable.Next(p) (item, ok)
+//@   requires pkInv(p)
+//@   modifies p.pos
+//@   ensures pkInv(p)
+//@   ensures old(p.pos) < p.n ==> ok && item == p.seq[old(p.pos)] && p.pos == old(p.pos) + 1
+//@   ensures old(p.pos) >= p.n ==> !ok && item == zero(item) && p.pos == old(p.pos)
+
+//@ ext iterator.Peekable.Peek(p) (item, ok)
+//@   requires pkInv(p)
+//@   ensures old(p.pos) < p.n ==> ok && item == p.seq[p.pos]
+//@   ensures old(p.pos) >= p.n ==> !ok && item == zero(item)
+
+// the peekable's sequence is its source's; it is one item ahead of the consumer while `has`
+//@ pred pkRep(iter, p) = itInv(iter.inner) && pkInv(p) && p.seq == iter.inner.seq && p.n == iter.inner.n
+//@   && p.pos == iter.inner.pos - (iter.has ? 1 : 0)
+//@   && (iter.has ==> iter.curr == iter.inner.seq[iter.inner.pos-1])
+//@   && (!iter.has ==> iter.curr == zero(iter.curr))
+
+//@ func WithPeek
+//@   props C07
+//@   requires itInv(iter)
+//@   ghost result.seq := iter.seq
+//@   ghost result.n := iter.n
+//@   ghost result.pos := iter.pos
+//@   ensures fresh(result) && result.(*peekable[T]).inner == iter && pkRep(result.(*peekable[T]), result) && untouched(iter)
+
+//@ func peekable.Next
+//@   props C07
+//@   requires pkRep(iter, iter.(Peekable[T]))
+//@   modifies iter.curr, iter.has, iter.inner.pos, iter.inner.pulls, iter.(Peekable[T]).pos
+//@   ghost iter.(Peekable[T]).pos := old(iter.(Peekable[T]).pos) < iter.(Peekable[T]).n ? old(iter.(Peekable[T]).pos) + 1 : old(iter.(Peekable[T]).pos)
+//@   ensures pkRep(iter, iter.(Peekable[T])) && !iter.has
+//@   ensures old(iter.(Peekable[T]).pos) < iter.(Peekable[T]).n ==> result1 && result0 == iter.(Peekable[T]).seq[old(iter.(Peekable[T]).pos)] && iter.(Peekable[T]).pos == old(iter.(Peekable[T]).pos) + 1
+//@   ensures old(iter.(Peekable[T]).pos) >= iter.(Peekable[T]).n ==> !result1 && result0 == zero(result0) && iter.(Peekable[T]).pos == old(iter.(Peekable[T]).pos)
+//@   ensures iter.inner.pulls == old(iter.inner.pulls) + (old(iter.has) ? 0 : 1)
+
+//@ func peekable.Peek
+//@   props C07
+//@   requires pkRep(iter, iter.(Peekable[T]))
+//@   modifies iter.curr, iter.has, iter.inner.pos, iter.inner.pulls
+//@   ensures pkRep(iter, iter.(Peekable[T]))
+//@   ensures iter.(Peekable[T]).pos < iter.(Peekable[T]).n ==> result1 && result0 == iter.(Peekable[T]).seq[iter.(Peekable[T]).pos] && iter.has
+//@   ensures iter.(Peekable[T]).pos >= iter.(Peekable[T]).n ==> !result1 && result0 == zero(result0) && !iter.has
+//@   ensures iter.inner.pulls == old(iter.inner.pulls) + (old(iter.has) ? 0 : 1)
+
+// ---- reducers ----
+
+//@ ufun foldl(f, init, s, lo, hi) @1
+//@ axiom forall lo int {foldl(f, initial, iter.seq, lo, lo)} :: foldl(f, initial, iter.seq, lo, lo) == initial
+//@ axiom forall lo int, hi int {foldl(f, initial, iter.seq, lo, hi)} :: lo < hi ==> foldl(f, initial, iter.seq, lo, hi) == f(foldl(f, initial, iter.seq, lo, hi-1), iter.seq[hi-1])
+
+//@ func Reduce
+//@   props C07
+//@   requires itInv(iter) && f != nil
+//@   modifies iter.pos, iter.pulls
+//@   loop 0: invariant itInv(iter) && old(iter.pos) <= iter.pos && iter.pulls == old(iter.pulls) + iter.pos - old(iter.pos) && acc == foldl(f, initial, iter.seq, old(iter.pos), iter.pos)
+//@   ensures iter.pos == iter.n && iter.pulls == old(iter.pulls) + iter.n - old(iter.pos) + 1
+//@   ensures result == foldl(f, initial, iter.seq, old(iter.pos), iter.n)
+
+//@ func Collect
+//@   props C07
+//@   requires itInv(iter)
+//@   modifies iter.pos, iter.pulls
+//@   inlinecall Reduce
+//@   loop Reduce.0: invariant itInv(iter) && old(iter.pos) <= iter.pos && iter.pulls == old(iter.pulls) + iter.pos - old(iter.pos) && len(acc) == iter.pos - old(iter.pos)
+//@   loop Reduce.0: invariant (acc == nil || fresh(acc)) && (forall t int {acc[t]} :: 0 <= t && t < len(acc) ==> acc[t] == iter.seq[old(iter.pos) + t])
+//@   ensures iter.pos == iter.n && iter.pulls == old(iter.pulls) + iter.n - old(iter.pos) + 1
+//@   ensures len(result) == iter.n - old(iter.pos) && (forall t int {result[t]} :: 0 <= t && t < len(result) ==> result[t] == iter.seq[old(iter.pos) + t])
+
+// ---- combinators with loops ----
+
+//@ func Chunk
+//@   props C07
+//@   ensures fresh(result) && result.(*chunkIterator[T]).inner == iter && result.(*chunkIterator[T]).chunkSize == chunkSize
+
+//@ func chunkIterator.Next
+//@   props C07
+//@   requires itInv(iter.inner) && iter.chunkSize >= 1
+//@   modifies iter.inner.pos, iter.inner.pulls
+//@   loop 0: invariant itInv(iter.inner) && old(iter.inner.pos) <= iter.inner.pos && iter.inner.pulls == old(iter.inner.pulls) + iter.inner.pos - old(iter.inner.pos)
+//@   loop 0: invariant len(chunk) == iter.inner.pos - old(iter.inner.pos) && len(chunk) < iter.chunkSize && cap(chunk) == iter.chunkSize && fresh(chunk)
+//@   loop 0: invariant forall t int {chunk[t]} :: 0 <= t && t < len(chunk) ==> chunk[t] == iter.inner.seq[old(iter.inner.pos) + t]
+//@   ensures itInv(iter.inner)
+//@   ensures old(iter.inner.pos) < iter.inner.n ==> result1 && fresh(result0) && len(result0) == min(iter.chunkSize, iter.inner.n - old(iter.inner.pos)) && iter.inner.pos == old(iter.inner.pos) + len(result0)
+//@   ensures result1 ==> (forall t int {result0[t]} :: 0 <= t && t < len(result0) ==> result0[t] == iter.inner.seq[old(iter.inner.pos) + t])
+//@   ensures result1 ==> iter.inner.pulls == old(iter.inner.pulls) + len(result0) + (len(result0) < iter.chunkSize ? 1 : 0)
+//@   ensures old(iter.inner.pos) >= iter.inner.n ==> !result1 && result0 == nil && iter.inner.pos == old(iter.inner.pos) && iter.inner.pulls == old(iter.inner.pulls) + 1
+
+//@ func CompactFunc
+//@   props C07
+//@   ensures fresh(result) && result.(*compactIterator[T]).inner == iter && result.(*compactIterator[T]).eq == eq && result.(*compactIterator[T]).first
+
+//@ func compactIterator.Next
+//@   props C07
+//@   requires itInv(iter.inner) && iter.eq != nil
+//@   modifies iter.prev, iter.first, iter.inner.pos, iter.inner.pulls
+//@   loop 0: invariant itInv(iter.inner) && old(iter.inner.pos) <= iter.inner.pos && iter.inner.pulls == old(iter.inner.pulls) + iter.inner.pos - old(iter.inner.pos)
+//@   loop 0: invariant iter.first == old(iter.first) && iter.prev == old(iter.prev) && (iter.first ==> iter.inner.pos == old(iter.inner.pos))
+//@   loop 0: invariant forall t int {iter.inner.seq[t]} :: old(iter.inner.pos) <= t && t < iter.inner.pos ==> iter.eq(iter.prev, iter.inner.seq[t])
+//@   ensures itInv(iter.inner)
+//@   ensures result1 ==> old(iter.inner.pos) < iter.inner.pos && result0 == iter.inner.seq[iter.inner.pos-1] && iter.prev == result0 && !iter.first
+//@       && iter.inner.pulls == old(iter.inner.pulls) + iter.inner.pos - old(iter.inner.pos)
+//@   ensures result1 && old(iter.first) ==> iter.inner.pos == old(iter.inner.pos) + 1
+//@   ensures result1 && !old(iter.first) ==> !iter.eq(old(iter.prev), result0)
+//@       && (forall t int {iter.inner.seq[t]} :: old(iter.inner.pos) <= t && t < iter.inner.pos - 1 ==> iter.eq(old(iter.prev), iter.inner.seq[t]))
+//@   ensures !result1 ==> result0 == zero(result0) && iter.inner.pos == iter.inner.n && iter.first == old(iter.first) && iter.prev == old(iter.prev)
+//@       && iter.inner.pulls == old(iter.inner.pulls) + iter.inner.n - old(iter.inner.pos) + 1
+//@   ensures !result1 && !old(iter.first) ==> (forall t int {iter.inner.seq[t]} :: old(iter.inner.pos) <= t && t < iter.inner.n ==> iter.eq(old(iter.prev), iter.inner.seq[t]))
+//@   ensures !result1 && old(iter.first) ==> old(iter.inner.pos) >= iter.inner.n
+
+//@ func Compact
+//@   props C07
+//@   ensures fresh(result) && result.(*compactIterator[T]).inner == iter && result.(*compactIterator[T]).first
+//@   ensures forall a T, b T {result.(*compactIterator[T]).eq(a, b)} :: result.(*compactIterator[T]).eq(a, b) == (a == b)
